@@ -10,6 +10,13 @@
 //!   update k k k…                      rebuild with the new key sequence (signal write + effects for `initf`)
 //!   trans  <pre> <post> <bs> k… / k…   fresh `init` then `update`; prints the update's line
 //!   transf <pre> <post> <bs> k… / k…   fresh `initf` then `update`
+//!   inith <0|1> <0|1> 1 k k k…         keyed() inside `<ul>[<p>]…[<span>]</ul>`: rendered to HTML (`to_html`), parsed into the
+//!                                      native DOM, hydrated (`RenderHtml::hydrate`), then updated by rebuilding the whole view
+//!                                      (`e=-`; `u=` = the vanished rows whose nodes left the parent)
+//!   initp <pre> <post> <bs> k k k…     the same list as leptos `<For>` (rows get no index: `b=k@-`, `i=-`)
+//!   bump <k> <v>                       `<For>` / `<ForEnumerate>`: write the row-local signal of row k. Every row body creates
+//!                                      an `RwSignal` (k*100), a `StoredValue` (k*100+1) and a `Memo` (signal+1) and renders the
+//!                                      memo; extra field `r=<k=signal.stored.memo.text…>` (`X` = disposed)
 //!   inits <pre> <post> <bs> k k k…     `<ForEnumerate each=move || store.rows() key=|row| row.id().get() …>` over a keyed
 //!                                      store field (reactive_stores `KeyedSubfield`); row k shows its label (k*10 at first);
 //!                                      `update` writes the new rows through `store.rows().write()`; extra field `l=<k=text…>`
@@ -147,6 +154,19 @@ trait KList {
     /// index each item was last told (ForEnumerate)
     fn told(&self) -> Option<Vec<(Key, usize)>> {
         None
+    }
+    /// the list was hydrated from server HTML (no access to the list state: `e=-`; unmounts are observed as the
+    /// rows that left the DOM)
+    fn hydrated(&self) -> bool {
+        false
+    }
+    /// `<For>` / `<ForEnumerate>`: the row-local state of row `k` (`None` inside = disposed): signal, stored value, memo
+    fn row_state(&self, _k: Key) -> Option<[Option<u32>; 3]> {
+        None
+    }
+    /// write the row-local signal of row `k`
+    fn bump(&mut self, _k: Key, _v: u32) -> bool {
+        false
     }
     /// keyed store field: write one row's label through `AtKeyed`
     fn set_label(&mut self, _k: Key, _v: u32) -> bool {
@@ -331,6 +351,72 @@ fn new_shape(root: Option<&nd::Element>, keys: Vec<Key>, tok: &str) -> Option<Bo
     })
 }
 
+// ---- keyed() rendered to HTML, parsed into the native DOM and hydrated (`RenderHtml::hydrate`)
+mod hydlist {
+    use super::{Key, KList, SetIndex, LOG};
+    use tachys::{
+        html::{
+            attribute::global::GlobalAttributes,
+            element::{li, p, span, ul, ElementChild},
+        },
+        prelude::*,
+        renderer::native_dom as nd,
+        view::keyed::keyed,
+    };
+
+    fn rows(keys: Vec<Key>) -> impl RenderHtml {
+        keyed(
+            keys,
+            |k| *k,
+            |index, k: Key| {
+                LOG.with(|l| l.borrow_mut().builds.push((k, index)));
+                let set_index: SetIndex = Box::new(move |i| LOG.with(|l| l.borrow_mut().set_index.push((k, i))));
+                // the nodes are found afterwards through their `id` attribute
+                (set_index, li().id(format!("k{k}")))
+            },
+        )
+    }
+
+    struct Holder<V: RenderHtml, F: Fn(Vec<Key>) -> V> {
+        state: V::State,
+        mk: F,
+    }
+    impl<V: RenderHtml, F: Fn(Vec<Key>) -> V> KList for Holder<V, F> {
+        fn update(&mut self, keys: Vec<Key>) {
+            (self.mk)(keys).rebuild(&mut self.state)
+        }
+        fn elements(&self) -> Option<Vec<usize>> {
+            None
+        }
+        fn hydrated(&self) -> bool {
+            true
+        }
+    }
+
+    fn start<V: RenderHtml + 'static, F: Fn(Vec<Key>) -> V + 'static>(
+        holder: &nd::Element,
+        keys: Vec<Key>,
+        mk: F,
+    ) -> Box<dyn KList> {
+        // server side: the HTML of the view; client side: parse it, then hydrate the same view on it
+        let html = mk(keys.clone()).to_html();
+        nd::parse_html_into(holder, &html);
+        let _ = super::take_log();
+        let state = mk(keys).hydrate_from::<true>(holder);
+        Box::new(Holder { state, mk })
+    }
+
+    /// `<ul>` with an optional leading `<p>` and an optional following `<span>` around the list
+    pub fn new(holder: &nd::Element, pre: bool, post: bool, keys: Vec<Key>) -> Box<dyn KList> {
+        match (pre, post) {
+            (false, false) => start(holder, keys, |ks| ul().child(rows(ks))),
+            (true, false) => start(holder, keys, |ks| ul().child((p(), rows(ks)))),
+            (false, true) => start(holder, keys, |ks| ul().child((rows(ks), span()))),
+            (true, true) => start(holder, keys, |ks| ul().child((p(), rows(ks), span()))),
+        }
+    }
+}
+
 // ---- leptos <ForEnumerate>
 mod forlist {
     use super::{Key, KList, LOG};
@@ -339,12 +425,22 @@ mod forlist {
     use std::collections::HashMap;
     use tachys::renderer::native_dom as nd;
 
+    /// the state a row body creates for itself: it lives in the row's owner
+    #[derive(Clone, Copy)]
+    pub struct RowState {
+        pub local: RwSignal<u32>,
+        pub stored: StoredValue<u32>,
+        pub memo: Memo<u32>,
+    }
     thread_local! {
         static INDEX: RefCell<HashMap<Key, ReadSignal<usize>>> = RefCell::new(HashMap::new());
+        /// every row body that has run: key -> the state of its latest incarnation
+        static ROWS: RefCell<HashMap<Key, RowState>> = RefCell::new(HashMap::new());
     }
 
     pub struct ForList {
         keys: RwSignal<Vec<Key>>,
+        plain: bool,
         _owner: Owner,
         _handle: Box<dyn std::any::Any>,
     }
@@ -357,44 +453,82 @@ mod forlist {
             None
         }
         fn told(&self) -> Option<Vec<(Key, usize)>> {
+            if self.plain {
+                return Some(vec![]);
+            }
             let keys = self.keys.get_untracked();
             Some(INDEX.with(|m| {
                 let m = m.borrow();
                 keys.iter().map(|k| (*k, m.get(k).map(|s| s.get_untracked()).unwrap_or(usize::MAX))).collect()
             }))
         }
+        fn row_state(&self, k: Key) -> Option<[Option<u32>; 3]> {
+            ROWS.with(|m| m.borrow().get(&k).copied()).map(|r| {
+                [r.local.try_get_untracked(), r.stored.try_get_value(), r.memo.try_get_untracked()]
+            })
+        }
+        fn bump(&mut self, k: Key, v: u32) -> bool {
+            let Some(r) = ROWS.with(|m| m.borrow().get(&k).copied()) else { return false };
+            if r.local.try_set(v).is_some() {
+                // `try_set` hands the value back when the signal is disposed
+                return false;
+            }
+            any_spawner::Executor::poll_local();
+            true
+        }
     }
 
-    fn item(index: ReadSignal<usize>, k: Key, bs: usize) -> impl IntoView {
-        LOG.with(|l| l.borrow_mut().builds.push((k, index.get_untracked())));
-        INDEX.with(|m| m.borrow_mut().insert(k, index));
+    fn item(index: Option<ReadSignal<usize>>, k: Key, bs: usize) -> impl IntoView {
+        LOG.with(|l| {
+            l.borrow_mut().builds.push((k, index.map(|i| i.get_untracked()).unwrap_or(usize::MAX)))
+        });
+        if let Some(index) = index {
+            INDEX.with(|m| m.borrow_mut().insert(k, index));
+        }
         on_cleanup(move || LOG.with(|l| l.borrow_mut().unmounts.push(k)));
+        // row-local state, created by the row body and rendered by the row
+        let local = RwSignal::new(k * 100);
+        let stored = StoredValue::new(k * 100 + 1);
+        let memo = Memo::new(move |_| local.get() + 1);
+        ROWS.with(|m| m.borrow_mut().insert(k, RowState { local, stored, memo }));
         // the nodes are found afterwards through their `data-k` / `data-j` attributes
+        let first = leptos::html::li()
+            .attr("data-k", k.to_string())
+            .attr("data-j", "0")
+            .child(move || memo.get().to_string());
         let el = move |j: usize| {
             leptos::html::li().attr("data-k", k.to_string()).attr("data-j", j.to_string())
         };
         match bs {
-            1 => leptos::either::EitherOf3::A(el(0)),
-            2 => leptos::either::EitherOf3::B((el(0), el(1))),
-            _ => leptos::either::EitherOf3::C((el(0), el(1), el(2))),
+            1 => leptos::either::EitherOf3::A(first),
+            2 => leptos::either::EitherOf3::B((first, el(1))),
+            _ => leptos::either::EitherOf3::C((first, el(1), el(2))),
         }
     }
 
-    pub fn new(root: &nd::Element, keys: Vec<Key>, bs: usize) -> Box<dyn KList> {
+    /// `plain`: `<For>` (no index), else `<ForEnumerate>`
+    pub fn new(root: &nd::Element, keys: Vec<Key>, bs: usize, plain: bool) -> Box<dyn KList> {
         let _ = any_spawner::Executor::init_futures_executor();
         INDEX.with(|m| m.borrow_mut().clear());
+        ROWS.with(|m| m.borrow_mut().clear());
         let owner = Owner::new();
         let (sig, handle) = owner.with(|| {
             let sig = RwSignal::new(keys);
-            let handle = leptos::mount::mount_to(root.clone(), move || {
-                view! {
-                    <ForEnumerate each=move || sig.get() key=|k| *k children=move |index, k| item(index, k, bs) />
-                }
-            });
+            let handle: Box<dyn std::any::Any> = if plain {
+                Box::new(leptos::mount::mount_to(root.clone(), move || {
+                    view! { <For each=move || sig.get() key=|k| *k children=move |k| item(None, k, bs) /> }
+                }))
+            } else {
+                Box::new(leptos::mount::mount_to(root.clone(), move || {
+                    view! {
+                        <ForEnumerate each=move || sig.get() key=|k| *k children=move |index, k| item(Some(index), k, bs) />
+                    }
+                }))
+            };
             (sig, handle)
         });
         any_spawner::Executor::poll_local();
-        Box::new(ForList { keys: sig, _owner: owner, _handle: Box::new(handle) })
+        Box::new(ForList { keys: sig, plain, _owner: owner, _handle: handle })
     }
 }
 
@@ -529,6 +663,9 @@ struct Session {
     inner_keys: HashMap<Key, Vec<Key>>,
     inner_node: HashMap<(Key, Key), usize>,
     inner_marker: HashMap<Key, usize>,
+    /// `<For>` / `<ForEnumerate>`: the value each row's local signal should hold; the rows removed by the last update
+    row_local: HashMap<Key, u32>,
+    row_gone: Vec<Key>,
 }
 
 fn sibling(root: &nd::Element, tag: &str) -> usize {
@@ -540,10 +677,16 @@ fn sibling(root: &nd::Element, tag: &str) -> usize {
 impl Session {
     /// `mode`: "init" (keyed, mounted), "initu" (keyed, built but not mounted), "initf" (ForEnumerate)
     fn start(pre: usize, post: usize, shape: &str, keys: Vec<Key>, mode: &str) -> Option<(Session, String)> {
-        let is_for = mode == "initf" || mode == "inits";
+        let is_for = mode == "initf" || mode == "inits" || mode == "initp";
         let kinds: Vec<char> = shape_kinds(shape)?.chars().collect();
         if is_for && !matches!(shape, "1" | "2" | "3") {
             return None;
+        }
+        if mode == "inith" {
+            if shape != "1" || pre > 1 || post > 1 {
+                return None;
+            }
+            return Self::start_hydrated(pre == 1, post == 1, keys);
         }
         nd::reset();
         let _ = take_log();
@@ -554,7 +697,7 @@ impl Session {
         let list: Box<dyn KList> = if mode == "inits" {
             storelist::new(&root, keys.clone(), kinds.len())
         } else if is_for {
-            forlist::new(&root, keys.clone(), kinds.len())
+            forlist::new(&root, keys.clone(), kinds.len(), mode == "initp")
         } else {
             new_shape((mode == "init").then_some(&root), keys.clone(), shape)?
         };
@@ -574,8 +717,61 @@ impl Session {
             inner_keys: HashMap::new(),
             inner_node: HashMap::new(),
             inner_marker: HashMap::new(),
+            row_local: HashMap::new(),
+            row_gone: vec![],
         };
 
+        let log = take_log();
+        s.register(&log);
+        let mut v = None;
+        let want_b: Vec<(Key, usize)> = keys.iter().enumerate().map(|(i, k)| (*k, i)).collect();
+        // (a plain `<For>` gives its rows no index: `usize::MAX`)
+        if log.builds.len() != want_b.len()
+            || log.builds.iter().zip(&want_b).any(|(b, w)| b.0 != w.0 || (b.1 != usize::MAX && b.1 != w.1))
+        {
+            v = Some("builds");
+        }
+        for k in &keys {
+            s.row_local.insert(*k, k * 100);
+        }
+        s.keys = keys;
+        let line = s.finish(&log, v);
+        Some((s, line))
+    }
+
+    /// server HTML -> native DOM -> `hydrate`: `<ul>[<p>]<li id=k..>…<!>[<span>]</ul>`
+    fn start_hydrated(pre: bool, post: bool, keys: Vec<Key>) -> Option<(Session, String)> {
+        nd::reset();
+        let _ = take_log();
+        KINDS.with(|k| *k.borrow_mut() = vec!['e']);
+        NESTED.with(|n| n.borrow_mut().clear());
+        let holder = nd::create_root("div");
+        let list = hydlist::new(&holder, pre, post, keys.clone());
+        let first = nd::children(&holder).into_iter().next()?;
+        let root = <nd::Element as tachys::renderer::CastFrom<nd::Node>>::cast_from(first)?;
+        let kids = nd::children(&root);
+        let pre: Vec<(usize, String)> =
+            if pre { vec![(nd::node_id(kids.first()?), "P0".to_string())] } else { vec![] };
+        let post: Vec<(usize, String)> =
+            if post { vec![(nd::node_id(kids.last()?), "Q0".to_string())] } else { vec![] };
+        let mut s = Session {
+            root,
+            list,
+            kinds: vec!['e'],
+            mounted: true,
+            keys: vec![],
+            pre,
+            post,
+            nsib: 0,
+            names: HashMap::new(),
+            nodes_of: HashMap::new(),
+            is_for: false,
+            inner_keys: HashMap::new(),
+            inner_node: HashMap::new(),
+            inner_marker: HashMap::new(),
+            row_local: HashMap::new(),
+            row_gone: vec![],
+        };
         let log = take_log();
         s.register(&log);
         let mut v = None;
@@ -590,7 +786,24 @@ impl Session {
 
     /// learn the nodes of freshly built items
     fn register(&mut self, log: &Log) {
-        if self.is_for {
+        if self.list.hydrated() {
+            for n in nd::children(&self.root) {
+                let id = nd::node_id(&n);
+                if self.names.contains_key(&id) {
+                    continue;
+                }
+                let attrs = nd::attributes(&n);
+                if let Some(k) = attrs
+                    .iter()
+                    .find(|a| a.0 == "id")
+                    .and_then(|a| a.1.strip_prefix('k'))
+                    .and_then(|k| k.parse::<Key>().ok())
+                {
+                    self.names.insert(id, format!("{k}:0"));
+                    self.nodes_of.insert(k, vec![id]);
+                }
+            }
+        } else if self.is_for {
             for n in nd::children(&self.root) {
                 let id = nd::node_id(&n);
                 if self.names.contains_key(&id) {
@@ -679,13 +892,62 @@ impl Session {
             None => "-".into(),
         };
         let _ = write!(out, " ; e={els}");
-        let _ = write!(out, " ; b={}", join(log.builds.iter().map(|(k, i)| format!("{k}@{i}")).collect()));
+        let _ = write!(
+            out,
+            " ; b={}",
+            join(
+                log.builds
+                    .iter()
+                    .map(|(k, i)| if *i == usize::MAX { format!("{k}@-") } else { format!("{k}@{i}") })
+                    .collect()
+            )
+        );
         let _ = write!(out, " ; u={}", join(log.unmounts.iter().map(|k| k.to_string()).collect()));
         let mut v = v;
         if let Some(told) = self.list.told() {
             let _ = write!(out, " ; i={}", join(told.iter().map(|(k, i)| format!("{k}={i}")).collect()));
             if v.is_none() && told.iter().enumerate().any(|(pos, (_, i))| pos != *i) {
                 v = Some("set-index");
+            }
+            // row-local state (signal . stored value . memo . rendered text): a retained row keeps it, with the
+            // value last written; `X` = disposed
+            if self.keys.first().is_some_and(|k| self.list.row_state(*k).is_some()) || self.keys.is_empty() {
+                let show = |o: Option<u32>| o.map(|x| x.to_string()).unwrap_or("X".into());
+                let mut rows = vec![];
+                let mut bad = false;
+                for k in &self.keys {
+                    let st = self.list.row_state(*k).unwrap_or([None; 3]);
+                    let text = self
+                        .nodes_of
+                        .get(k)
+                        .and_then(|ids| ids.first())
+                        .and_then(|id| nd::node_by_id(*id))
+                        .and_then(|n| n.text_content())
+                        .unwrap_or("?".into());
+                    rows.push(format!("{k}={}.{}.{}.{text}", show(st[0]), show(st[1]), show(st[2])));
+                    let want = self.row_local.get(k).copied();
+                    if st[0] != want
+                        || st[1] != Some(k * 100 + 1)
+                        || st[2] != want.map(|x| x + 1)
+                        || Some(text) != want.map(|x| (x + 1).to_string())
+                    {
+                        bad = true;
+                    }
+                }
+                if self.list.labels().is_none() {
+                    let _ = write!(out, " ; r={}", join(rows));
+                    if v.is_none() && bad {
+                        v = Some("row-state");
+                    }
+                    // the state of a removed row is disposed with the row's owner
+                    if v.is_none()
+                        && self.row_gone.iter().any(|k| {
+                            self.list.row_state(*k).is_some_and(|st| st.iter().any(|x| x.is_some()))
+                        })
+                    {
+                        v = Some("row-state-leak");
+                    }
+                }
             }
         } else {
             let _ = write!(out, " ; s={}", join(log.set_index.iter().map(|(k, i)| format!("{k}>{i}")).collect()));
@@ -748,7 +1010,16 @@ impl Session {
         let old_nodes = self.nodes_of.clone();
         let _ = take_log();
         self.list.update_how(to.clone(), how);
-        let log = take_log();
+        let mut log = take_log();
+        if self.list.hydrated() {
+            // no access to the item states: the unmounted rows are the vanished keys whose nodes left the parent
+            let now: Vec<usize> = nd::children(&self.root).iter().map(|n| nd::node_id(n)).collect();
+            log.unmounts = from
+                .iter()
+                .filter(|k| !to.contains(k) && old_nodes.get(k).is_some_and(|ids| ids.iter().all(|id| !now.contains(id))))
+                .cloned()
+                .collect();
+        }
         self.register(&log);
         self.keys = to.clone();
         let kids: Vec<usize> = nd::children(&self.root).iter().map(|n| nd::node_id(n)).collect();
@@ -760,9 +1031,17 @@ impl Session {
         // new keys: exactly one view_fn call each, with their index; nothing else is built
         let want_b = sorted(to.iter().filter(|k| !from.contains(k)).cloned().collect());
         if sorted(log.builds.iter().map(|b| b.0).collect()) != want_b
-            || log.builds.iter().any(|(k, i)| to.get(*i) != Some(k))
+            || log.builds.iter().any(|(k, i)| *i != usize::MAX && to.get(*i) != Some(k))
         {
             v = Some("builds");
+        }
+        // row-local state: new rows start fresh, removed rows are gone
+        for (k, _) in &log.builds {
+            self.row_local.insert(*k, k * 100);
+        }
+        self.row_gone = from.iter().filter(|k| !to.contains(k)).cloned().collect();
+        for k in &self.row_gone {
+            self.row_local.remove(k);
         }
         // retained keys: the same nodes as before, still children of the parent
         if v.is_none() {
@@ -862,6 +1141,19 @@ impl Session {
         self.finish(&shown, v)
     }
 
+    /// write the row-local signal of row `k`
+    fn bump(&mut self, k: Key, v: u32) -> String {
+        let _ = take_log();
+        if !self.keys.contains(&k) || self.list.row_state(k).is_none() {
+            return "bad-op".into();
+        }
+        let ok = self.list.bump(k, v);
+        self.row_local.insert(k, v);
+        self.row_gone.clear();
+        let log = take_log();
+        self.finish(&log, if ok { None } else { Some("row-state") })
+    }
+
     fn label(&mut self, k: Key, v: u32) -> String {
         let _ = take_log();
         if !self.list.set_label(k, v) {
@@ -951,7 +1243,7 @@ fn op(sess: &mut Option<Session>, line: &str) -> String {
             *sess = None;
             case_tags(n)
         }
-        [cmd @ ("init" | "initf" | "initu" | "inits"), rest @ ..] => match parse_init(rest) {
+        [cmd @ ("init" | "initf" | "initu" | "inits" | "initp" | "inith"), rest @ ..] => match parse_init(rest) {
             Some((p, q, b, ks)) => {
                 *sess = None;
                 match Session::start(p, q, b, ks, cmd) {
@@ -1012,6 +1304,10 @@ fn op(sess: &mut Option<Session>, line: &str) -> String {
         },
         ["inner", o, rest @ ..] => match (sess.as_mut(), o.parse::<Key>().ok(), parse_keys(rest)) {
             (Some(s), Some(o), Some(ks)) => s.inner(o, ks),
+            _ => "bad-op".into(),
+        },
+        ["bump", k, v] => match (sess.as_mut(), k.parse::<Key>().ok(), v.parse::<u32>().ok()) {
+            (Some(s), Some(k), Some(v)) => s.bump(k, v),
             _ => "bad-op".into(),
         },
         ["label", k, v] => match (sess.as_mut(), k.parse::<Key>().ok(), v.parse::<u32>().ok()) {
@@ -1266,12 +1562,15 @@ fn gen(seed: u64, n: usize, path: &str, tier: &str) -> std::io::Result<()> {
         let alphabet = r.range(3, 12);
         let (p, q) = (r.below(3), r.below(3));
         // 0 keyed() with any item shape, 1 nested lists updated on their own, 2 <ForEnumerate>, 3 keyed store field
-        let mode = match r.below(20) {
+        // … 4 keyed() hydrated from server HTML
+        let mode = match r.below(22) {
             0..=9 => 0,
             10..=12 => 1,
             13..=15 => 2,
-            _ => 3,
+            16..=19 => 3,
+            _ => 4,
         };
+        let (p, q) = if mode == 4 { (p.min(1), q.min(1)) } else { (p, q) };
         let start = random_seq(&mut r, alphabet, 8);
         let mut tags: Vec<&str> = vec![];
         let (shape, unmounted_start) = match mode {
@@ -1288,16 +1587,30 @@ fn gen(seed: u64, n: usize, path: &str, tier: &str) -> std::io::Result<()> {
             }
             2 => {
                 tags.push("for");
+                tags.push("row-state");
                 (r.range(1, 3).to_string(), false)
             }
-            _ => {
+            3 => {
                 tags.push("store");
                 (r.range(1, 3).to_string(), false)
             }
+            _ => {
+                tags.push("keyed");
+                tags.push("hydrated");
+                ("1".to_string(), false)
+            }
         };
         let init = match (mode, unmounted_start) {
-            (2, _) => "initf",
+            (2, _) => {
+                if r.chance(1, 2) {
+                    tags.push("plain-for");
+                    "initp"
+                } else {
+                    "initf"
+                }
+            }
             (3, _) => "inits",
+            (4, _) => "inith",
             (_, true) => "initu",
             _ => "init",
         };
@@ -1348,6 +1661,11 @@ fn gen(seed: u64, n: usize, path: &str, tier: &str) -> std::io::Result<()> {
                 lines.push(format!("inner {o} {}", show(&next)));
                 inner.insert(o, next);
                 tags.push("inner-update");
+            } else if mode == 2 && !cur.is_empty() && r.chance(1, 3) {
+                // write a row's local signal: it must survive the following list updates
+                let k = *r.pick(&cur);
+                lines.push(format!("bump {k} {}", r.below(100)));
+                tags.push("bump");
             } else if mode == 3 && !cur.is_empty() && r.chance(1, 4) {
                 let k = *r.pick(&cur);
                 lines.push(format!("label {k} {}", r.below(100)));
